@@ -63,6 +63,12 @@ class DCORBasin(Basin):
                     self._available_verified = api.get("valid")
                 except DCORAccessError:
                     self._available_verified = False
+                except OSError:
+                    # Connection problems (`requests` exceptions are
+                    # subclasses of OSError) after all retries: The basin
+                    # is not available right now. Do not remember this
+                    # result, the server might be reachable later.
+                    return False
         return self._available_verified
 
 
